@@ -617,7 +617,7 @@ func (v *VMValue) toStringRaw(ri *recursionInfo) string {
 
 		var items []string
 		dd, _ := v.ReadDictData()
-		dd.Dict.Range(func(key string, value *VMValue) bool {
+		dd.Dict.rangeSorted(func(key string, value *VMValue) bool {
 			txt := value.toReprRaw(ri)
 			// txt := ""
 			// if value.TypeId == VMTypeArray {
